@@ -13,6 +13,7 @@ func init() {
 	vHarnesses["H_C15_xml_bytes"] = H_C15_xml_bytes
 	vHarnesses["H_C15_xmlseq_bytes"] = H_C15_xmlseq_bytes
 	vHarnesses["H_C15_json_bytes"] = H_C15_json_bytes
+	vHarnesses["H_C15_encode_opts"] = H_C15_encode_opts
 }
 
 const vArgAlpha = ".[]-09:!*a"
@@ -292,4 +293,29 @@ func H_C15_json_bytes() {
 	} else {
 		vCover("rejected")
 	}
+}
+
+// every Map produced by a decoder can be encoded without a panic, under every attribute
+// prefix length and key-length combination
+func H_C15_encode_opts() {
+	vResetDecOpts()
+	prefix := []string{"-", "", "@@", "at_", "attr_"}[vChoose(5)]
+	n1 := vNondetString(1, 3, "ab")
+	n2 := vNondetString(1, 2, "ab")
+	doc := "<" + n1 + " " + n2 + "=\"1\"><" + n2 + ">x</" + n2 + "><" + n1 + "><c/></" + n1 + "></" + n1 + ">"
+	SetAttrPrefix(prefix)
+	m, err := NewMapXml([]byte(doc))
+	ms, serr := NewMapXmlSeq([]byte(doc))
+	vAssert(err == nil && serr == nil, "encode opts: the document decodes")
+	panicked := vCatch(func() {
+		_, _ = m.Xml()
+		_, _ = m.XmlIndent("", " ")
+		_, _ = ms.Xml()
+		_ = m.LeafNodes(true)
+		_, _ = m.Attributes(n1)
+		_, _ = m.Elements(n1)
+	})
+	SetAttrPrefix("-")
+	vAssert(!panicked, "encode opts: a decoded Map is encoded and queried without a panic under every attribute prefix")
+	vCover("prefixes")
 }
